@@ -124,12 +124,14 @@ class Heartbeat(object):
 
         :return:
         """
-        if not self._running.is_set():
-            return False
-        self._timer = self.timer_impl(
-            interval=self._interval,
-            function=self._check_for_life_signs
-        )
-        self._timer.daemon = True
-        self._timer.start()
+        with self._lock:
+            # stop() clears the flag and cancels the timer under this lock.
+            if not self._running.is_set():
+                return False
+            self._timer = self.timer_impl(
+                interval=self._interval,
+                function=self._check_for_life_signs
+            )
+            self._timer.daemon = True
+            self._timer.start()
         return True
